@@ -74,6 +74,14 @@ fn run20<T: Est>(c: &Ingest, o: &mut Obs) -> TestResult {
     let t = t.unwrap_or_else(T::new_);
     o.evals += 1;
     if let Some(d) = snap_diff(&reference.snap(), &t.snap()) {
+        // Known finding K3: Min/Max are built on f64::min/max, which leave the sign of a zero
+        // result unspecified; the optimiser compiles the add loop, collect and extend differently,
+        // so a stream containing both 0.0 and -0.0 can end in 0.0 on one path and -0.0 on another.
+        let zero_sign_only = (T::NAME == "Min" || T::NAME == "Max")
+            && reference.snap().iter().zip(t.snap().iter()).all(|(a, b)| a.1.to_bits() == b.1.to_bits() || (a.1 == 0.0 && b.1 == 0.0));
+        if zero_sign_only {
+            return fail("ingest:differs:minmax-signed-zero", format!("{}: ingesting {} observations through paths {:?} (cuts {:?}) differs from the add loop only in the sign of a zero: {}", T::NAME, n, c.paths, c.cuts, d));
+        }
         return fail("ingest:differs", format!("{}: ingesting {} observations through paths {:?} (cuts {:?}) differs from the add loop: {}", T::NAME, n, c.paths, c.cuts, d));
     }
     if let Some((est, head)) = t.estimate_pair_() {
@@ -230,6 +238,24 @@ impl Check for Concat {
 
 pub fn run(cx: &Ctx) {
     cx.set_rule("cases = (type, sequence over the C01 domain, cut points, one ingestion path per segment out of {collect by value, collect by reference (first segment), extend by value, extend by reference, add loop}) for Mean, Variance, Skewness, Kurtosis, Moments4, an order-6 define_moments! type, Min, Max (no Extend), WeightedMean, WeightedMeanWithError, Covariance ((f64,f64) and &(f64,f64) items): every public accessor bit-equal to the plain add loop; Estimate::estimate() bit-equal to the headline accessor; and concatenate!-generated structs (2-field MinMax; 4-field [Variance: mean, sample_variance, population_variance, error], [Quantile: quantile], [Kurtosis: kurtosis, skewness], [Max: max]; `pub` variants, one defined in another module) built by new()+add, default()+add, collect by value and by reference report bit-for-bit what the stand-alone estimators report. Non-trivial = at least two different paths with an extend onto a non-empty estimator (concatenate: n >= 2); distinct = hash of the inputs");
+    cx.label("fixed");
+    {
+        // reproducer of known finding K3 (see KNOWN_FINDINGS.txt); whether it manifests depends on the build
+        let mut xs: Vec<f64> = vec![7.0; 42];
+        xs[10] = 10.0;
+        for v in xs.iter_mut().skip(11).take(7) {
+            *v = 0.0;
+        }
+        xs[21] = -0.0;
+        xs[41] = 1.0;
+        let vals: Vec<(f64, f64)> = xs.iter().map(|&x| (x, 0.0)).collect();
+        let neg: Vec<(f64, f64)> = xs.iter().map(|&x| (-x, 0.0)).collect();
+        cx.run_list(&Paths, vec![
+            Ingest { ty: "Min".into(), vals: vals.clone(), cuts: vec![3, 3], paths: vec![0, 0, 0, 0, 0, 2] },
+            Ingest { ty: "Max".into(), vals: neg, cuts: vec![3, 3], paths: vec![0, 0, 0, 0, 0, 2] },
+            Ingest { ty: "Mean".into(), vals, cuts: vec![3, 3], paths: vec![0, 0, 0, 0, 0, 2] },
+        ], "K3 reproducer (Min over a stream with 0.0 and -0.0, collect + extend vs add loop)");
+    }
     cx.label("generated");
     for ty in INGEST_TYPES {
         let kind = kind_of(ty);
@@ -243,10 +269,10 @@ pub fn run(cx: &Ctx) {
                 Ingest { ty: ty.clone(), vals, cuts, paths }
             })
         };
-        cx.run_pt(&Paths, cx.by(250, 5000), cx.workers.min(8), strat, "sequences of 0..700 observations (3/4 shorter than 60), up to 6 segments, every combination of paths");
+        cx.run_pt(&Paths, cx.by(1200, 12000), cx.workers.min(8), strat, "sequences of 0..700 observations (3/4 shorter than 60), up to 6 segments, every combination of paths");
     }
     let strat = || (prop_oneof![3 => vec(super::c11::c01_value(), 0..80), 1 => vec(super::c11::c01_value(), 80..600)], 0u8..4).prop_map(|(xs, ctor)| Conc { xs, ctor });
-    cx.run_pt(&Concat, cx.by(600, 10000), cx.workers, strat, "sequences of 0..80 observations x 4 constructors x 4 concatenate! structs");
+    cx.run_pt(&Concat, cx.by(3000, 30000), cx.workers, strat, "sequences of 0..80 observations x 4 constructors x 4 concatenate! structs");
 }
 
 pub fn replay(check: &str, case: &serde_json::Value) -> Option<Result<(), String>> {
